@@ -22,6 +22,10 @@ def r1_truth_tables(ctx):
     f = ctx.anchor(LIM + '::applies')
     if not f:
         return
+    f = _delegate_target(ctx.P, f)
+    ctx.touch(f)
+    REC = {LIM + '::applies', f.key}
+    SELF = ('arg', f.local_name(1))
     paths = [(p, d) for p, o, d in fn_paths(ctx, f) if o == 'return']
     by_variant = {}
     adt = ctx.P.adts.get(LIM) or {}
@@ -31,7 +35,7 @@ def r1_truth_tables(ctx):
         atoms = [a for _, a in path_atoms(f, p, d)]
         possible = set(all_vars)
         for a in atoms:
-            if a[1] == ('arg', 'self'):
+            if a[1] == SELF:
                 if a[0] == 'is':
                     possible &= {a[2]}
                 elif a[0] == 'isnot':
@@ -72,7 +76,8 @@ def r1_truth_tables(ctx):
                 env = {}
                 consistent = True
                 for a in atoms:
-                    if a[0] == 'bool' and a[1][0] == 'call' and a[1][1] == LIM + '::applies':
+                    a = _as_bool_atom(a, REC)
+                    if a[0] == 'bool' and a[1][0] == 'call' and a[1][1] in REC:
                         which = _operand_index(a[1][2][0], var)
                         args_ok = a[1][2][1] == A_COUNT and a[1][2][2] == A_TIME
                         if which is None or not args_ok:
@@ -82,10 +87,12 @@ def r1_truth_tables(ctx):
                             consistent = False
                 if not consistent:
                     continue
-                r = path_ret(f, p)
+                r = peel(path_ret(f, p))
+                if r[0] == 'phi':
+                    r = peel(_ret_on_path(f, p))
                 if r[0] == 'int':
                     results.add(bool(r[1]))
-                elif r[0] == 'call' and r[1] == LIM + '::applies':
+                elif r[0] == 'call' and r[1] in REC:
                     which = _operand_index(canon(r[2][0]), var)
                     if which is None or canon(r[2][1]) != A_COUNT or canon(r[2][2]) != A_TIME:
                         operands_ok = False
@@ -97,6 +104,41 @@ def r1_truth_tables(ctx):
         ctx.check(not bad and operands_ok, 'table-%s' % var,
                   'RuntimeLimit::%s(l, r) applies iff l.applies(count,time) %s r.applies(count,time), both evaluated on the same arguments' % (var, '&&' if 'And' in var else '||'),
                   f.where(), {'mismatches': bad, 'operands_distinct_and_args_unchanged': operands_ok})
+
+
+def _delegate_target(P, f):
+    """`applies` may be a thin wrapper around a (new, recursive) free function taking the same arguments: analyse that one"""
+    local = [s for s in f.calls() if s.name in P.fns and P.fns[s.name].kind not in ('closure', 'promoted')]
+    if len(local) == 1 and len(f.blocks) <= 4 and local[0].name not in getattr(P, 'baseline', {}):
+        s = local[0]
+        g = P.fns[s.name]
+        args = [peel(f.expr_operand(a, s.b, 'T')) for a in s.args]
+        if g.argc == f.argc and all(a[0] == 'arg' and a[1] == i + 1 for i, a in enumerate(args)):
+            rts = [peel(t) for _, t in ret_trees(f)]
+            if rts and all(t[0] == 'call' and t[1] == g.key for t in rts):
+                return g
+    return f
+
+
+def _as_bool_atom(a, rec):
+    """`x == true` / `x != false` ... with x a recursive call result are boolean facts about x"""
+    if a and a[0] == 'cmp' and a[1] in ('eq', 'ne'):
+        l, r = a[2], a[3]
+        if r[0] == 'call' and l[0] == 'int':
+            l, r = r, l
+        if l[0] == 'call' and l[1] in rec and r[0] == 'int' and r[1] in (0, 1):
+            return ('bool', l, (r[1] == 1) == (a[1] == 'eq'))
+    return a
+
+
+def _ret_on_path(f, path):
+    """value returned on this path with merged locals resolved along the path"""
+    last = None
+    for idx, b in enumerate(path):
+        for i, st in enumerate(f.stmts(b)):
+            if st['k'] == 'assign' and st['p']['l'] == 0 and not st['p']['pr']:
+                last = f.expr_operand_on_path(st['r']['o'], path, idx, i) if st['r']['k'] == 'use' else f.expr_rvalue(st['r'], b, i)
+    return last if last is not None else ('unknown',)
 
 
 def _operand_index(recv, var):
@@ -197,6 +239,20 @@ def r3_finish(ctx, cfg='A'):
         last = outs[-1][1] if outs else None
         if any(s.b in path for s in drains):
             last = True   # the drain call returns only once the closure has seen the set empty
+        if last is not True:
+            # counted forms: `n = set.len()`; `n == 0` means empty; `for _ in 0..n { fetch_next }` leaves it empty (C01.R1: len counts the stored events)
+            is_len = lambda t: any(x[0] == 'call' and x[1] == _fes(cfg) + '::len' for x in walk(t))
+            for a in [a for _, a in path_atoms(f, path, decs)]:
+                if a and a[0] == 'cmp' and is_len(a[2]) and a[3] == ('int', 0) and a[1] in ('eq', 'le'):
+                    last = True
+                if a and a[0] == 'cmp' and is_len(a[3]) and a[2] == ('int', 0) and a[1] in ('eq', 'ge'):
+                    last = True
+            for w in per_item_calls(P, f, _fes(cfg) + '::fetch_next'):
+                if w.form == 'loop' and w.exhaustive and w.anchor in path and w.it is not None:
+                    rng = [y for y in walk(w.it) if y[0] == 'agg' and 'ops::Range' in str(y[1]) and len(y[2]) == 2]
+                    single = len([c for c in f.calls_to(_fes(cfg) + '::fetch_next') if set(f.loops_containing(c.b)) == set(f.loops_containing(w.site.b))]) == 1
+                    if rng and rng[0][2][0] == ('int', 0) and is_len(rng[0][2][1]) and single:
+                        last = True
         ctx.check(last is True, 'finish-observes-empty',
                   'every successful return of finish has observed the event set empty (events beyond the stopping point are returned as remaining, none is lost)',
                   f.where_path(path), {'is_empty_observations': [str(o[1]) for o in outs]})
@@ -228,13 +284,15 @@ def r4_builder_composition(ctx):
         if not f:
             continue
         adds = f.calls_to(LIM + '::add')
-        ok = len(adds) == 1
+        via_limit = f.calls_to(B + '::limit') if m != 'limit' else []
+        ok = len(adds) + len(via_limit) == 1
         detail = None
         if ok:
-            s = adds[0]
+            s = (adds + via_limit)[0]
             recv = peel(f.expr_operand(s.args[0], s.b, 'T'))
             arg = peel(f.expr_operand(s.args[1], s.b, 'T'))
-            ok = recv[0] == 'field' and recv[2] == 'limit'
+            # directly on the builder's limit field, or through Builder::limit (checked below to add, not replace)
+            ok = (recv[0] == 'field' and recv[2] == 'limit') if adds else (recv[0] == 'arg' and recv[1] == 1)
             if var:
                 ok = ok and arg[0] == 'agg' and arg[1].endswith('RuntimeLimit::' + var) and peel(arg[2][0])[0] == 'arg'
             else:
